@@ -51,8 +51,8 @@ func specEquals(a, b *Message) bool {
 
 // HarnessC16Equals: Equals(a,b) <=> spec, and Equals is symmetric, for all messages within the bound.
 func HarnessC16Equals() {
-	a := symMessage("a", 2, 2)
-	b := symMessage("b", 2, 2)
+	a := symMessage("a", vrt.Bound("maxmeta", 2), vrt.Bound("maxpayload", 2))
+	b := symMessage("b", vrt.Bound("maxmeta", 2), vrt.Bound("maxpayload", 2))
 	got := a.Equals(b)
 	want := specEquals(a, b)
 	vrt.Observe("equals", got)
@@ -62,7 +62,7 @@ func HarnessC16Equals() {
 
 // HarnessC16Copy: Copy equals the original, owns its metadata, is unsettled and carries no context.
 func HarnessC16Copy() {
-	a := symMessage("a", 2, 2)
+	a := symMessage("a", vrt.Bound("maxmeta", 2), vrt.Bound("maxpayload", 2))
 	c := a.Copy()
 	vrt.Assert(c != a, "Copy returns a new message")
 	vrt.Assert(specEquals(a, c), "Copy has the same UUID, payload and metadata")
